@@ -13,8 +13,13 @@ def _arm_bindings(pat):
     """lid -> field position for the bindings of a tuple-struct arm pattern (top level only)."""
     out = {}
     p = pat
-    while p.get("k") in ("Ref", "Deref"):
-        p = p["pat"]
+    while p.get("k") in ("Ref", "Deref") or (p.get("k") == "Binding" and p.get("sub")):
+        p = p["pat"] if p.get("k") in ("Ref", "Deref") else p["sub"]
+    if p.get("k") == "Or":
+        # `V1(a, b) | V2(a, b) => ..`: every alternative binds the same names at its own positions
+        for q in p["pats"]:
+            out.update(_arm_bindings(q))
+        return out
     if p.get("k") == "TupleStruct":
         for i, q in enumerate(p["pats"]):
             for n in walk(q):
@@ -195,7 +200,12 @@ def remap_sets(F, f):
         if _items_traced(arm, "lookup_in_data_slice", F, f["path"]):
             s.add("items")
         cannot = any(hirq.path_def(n) and str(hirq.path_def(n)).endswith("DataErrorType::CannotClone") for n in walk(arm["body"]) if n.get("k") == "Path")
-        out[v] = (s, rebuilt, loc(arm), cannot)
+        # which BasicData variants the arm constructs (helpers it calls included): the copy of a V cell must be a V cell
+        built = set(last(d) for d, _c in hirq.calls_in(arm["body"]) if d.startswith(BASICDATA + "::"))
+        built |= set(last(hirq.path_def(n)) for n in walk(arm["body"]) if n.get("k") == "Path" and (hirq.path_def(n) or "").startswith(BASICDATA + "::"))
+        for g, _c in _local_helpers(F, arm["body"], f["path"]):
+            built |= set(last(d) for d, _c2 in hirq.calls_in(g["hir"]) if d.startswith(BASICDATA + "::"))
+        out[v] = (s, rebuilt, loc(arm), cannot, built)
     return out, m
 
 
@@ -231,7 +241,7 @@ def rule_T8(ctx):
             r.finding((tf[0] if t is None else cf[0])["path"], "arm-missing:" + v, "-", "no arm for BasicData::%s" % v)
             continue
         ts, tw = t
-        cs, rebuilt, cw, cannot = c
+        cs, rebuilt, cw, cannot, built = c
         if v in sp["refs"] and ts != want:
             r.finding(tf[0]["path"], "trace:" + v, tw, "reachability pass follows fields %s of %s, the reference fields are %s: %s" % (
                 sorted(map(str, ts)), v, sorted(map(str, want)), "a referenced value would not be kept alive" if want - ts else "a non-reference is followed as an address"))
@@ -243,6 +253,10 @@ def rule_T8(ctx):
         if v in sp["refs"] and cs != want:
             r.finding(cf[0]["path"], "remap:" + v, cw, "copy pass remaps fields %s of %s, the reference fields are %s: %s" % (
                 sorted(map(str, cs)), v, sorted(map(str, want)), "a stale pre-compaction address would be kept" if want - cs else "a payload is rewritten as an address"))
+        built = built & set(vs)
+        if built and v not in built:
+            r.finding(cf[0]["path"], "rebuilt-as:%s->%s" % (v, "/".join(sorted(built - {"JumpPoint"})) or "?"), cw,
+                      "the copy pass rebuilds a %s cell as %s: the cell keeps its payload but changes its meaning (e.g. a frame record read back as a different kind of link)" % (v, sorted(built - {"JumpPoint"})))
         if ts != cs:
             r.finding(cf[0]["path"], "agree:" + v, cw, "the two passes disagree on %s: traced %s, remapped %s" % (v, sorted(map(str, ts)), sorted(map(str, cs))))
         if rebuilt is not None:
